@@ -284,7 +284,10 @@ def load_known(prop: str) -> List[Dict[str, Any]]:
 
 def match_known(v: Dict[str, Any], known: List[Dict[str, Any]]) -> Optional[Dict[str, Any]]:
     for k in known:
-        if k.get("sub") != v["sub"]:
+        if "subs" in k:  # one input whose failure may surface under several tags of the same sub-check
+            if v["sub"] not in k["subs"]:
+                continue
+        elif k.get("sub") != v["sub"]:
             continue
         if "key_prefix" in k:
             if not v["key"].startswith(k["key_prefix"]):
@@ -319,8 +322,8 @@ def finish(
         k = match_known(v, known)
         if k is not None:
             kk = k.get("key") or k.get("key_prefix")
-            listed.setdefault((k["sub"], kk), (k, v))
-            listed_n[(k["sub"], kk)] += 1
+            listed.setdefault((v["sub"], kk), (k, v))
+            listed_n[(v["sub"], kk)] += 1
         else:
             new.append(v)
     for (sub, key), (k, v) in sorted(listed.items()):
@@ -333,6 +336,8 @@ def finish(
     # deterministic order, write replays for the first few new violations
     new.sort(key=lambda v: (v["sub"], v["key"]))
     rdir = os.path.join(VERIF, "replays", prop)
+    if os.environ.get("VERIF_EVIDENCE_OUT"):  # side run (seeded change, other hash seed): leave the main run's replay files alone
+        rdir = os.environ["VERIF_EVIDENCE_OUT"] + ".replays"
     if os.path.isdir(rdir):  # replay files of earlier runs are stale
         for fn in os.listdir(rdir):
             try:
